@@ -136,7 +136,14 @@ fn make_case_once(seed: u64, run: u64, r: &mut Rng) -> Option<Case> {
         let indent = if r.chance(40) { " ".repeat(r.urange(1, 8)) } else if r.chance(10) { "\t".to_owned() } else { String::new() };
         let up = r.chance(15);
         let body = if up { upcase_keywords(stmt) } else { stmt.to_owned() };
-        let suffix = if r.chance(25) { " ; spliced" } else { "" };
+        let mut suffix = if r.chance(25) { " ; spliced".to_owned() } else { String::new() };
+        if r.chance(12) {
+            // a very long line: blanks (ASCII and not) and a remark far beyond any sensible width
+            // ... placed so that a multi-byte blank straddles a round byte offset of the line
+            let target = *r.pick(&[16usize, 32, 64, 80, 100, 128, 255, 256, 257, 512, 1024]);
+            let k = target.saturating_sub(1 + indent.len() + body.len()).max(1);
+            suffix = format!("{}{}{} ; {}", " ".repeat(k), "\u{a0}\u{2003}".repeat(r.urange(1, 6)), " ".repeat(r.urange(0, 40)), "\u{e9}".repeat(r.urange(1, 200)));
+        }
         lines.insert(at, format!("{}{}{}", indent, body, suffix));
         if at + 1 == lines.len() && r.chance(50) {
             final_newline = false;
@@ -254,7 +261,8 @@ fn make_case_once(seed: u64, run: u64, r: &mut Rng) -> Option<Case> {
         // a wrong statement produced by a macro that is itself used inside another macro: the
         // offending token, as far as the source file goes, is the outermost use
         let depth = r.urange(1, 3);
-        let bad = *r.pick(&["mov al, q", "int q", "mov ax, q, q", "add q", "call q"]);
+        // (the last two end in the middle of a statement: the expansion runs into its own end)
+        let bad = *r.pick(&["mov al, q", "int q", "mov ax, q, q", "add q", "call q", "mov bx,", "add ax, word"]);
         let mut defs = vec![format!("macro zz_e0(q) -> inc si {} <-", bad)];
         for d in 1..depth {
             defs.push(format!("macro zz_e{}(q) -> mov dx, 1 zz_e{}(q) inc di <-", d, d - 1));
